@@ -26,6 +26,10 @@ structure Quirks where
   dimacsSingleClause : Bool := false
   /-- `to_bqm`: `_ret = <symbol>` takes the `AndConst` branch -/
   retSymbolAndConst : Bool := false
+  /-- `return v` names the bits of a tuple-typed variable flat (`_ret.i`), `returns.bitvec` nested -/
+  retFlatNames : Bool := false
+  /-- `decode_output(int)`: the digits of `bin()` are padded on the right -/
+  formatOutcomeIntPadRight : Bool := false
   deriving Repr, DecidableEq, Inhabited
 
 def Quirks.none : Quirks := {}
@@ -39,6 +43,8 @@ def Quirks.ofList (l : List String) : Quirks :=
     repeatZero := l.contains "repeatZero"
     identityGateRaises := l.contains "identityGateRaises"
     dimacsSingleClause := l.contains "dimacsSingleClause"
-    retSymbolAndConst := l.contains "retSymbolAndConst" }
+    retSymbolAndConst := l.contains "retSymbolAndConst"
+    retFlatNames := l.contains "retFlatNames"
+    formatOutcomeIntPadRight := l.contains "formatOutcomeIntPadRight" }
 
 end QV
